@@ -14,7 +14,9 @@
    guards.  In-place updates have value semantics (no aliasing is observed in these methods: every array mutated after an
    alias was taken is not read through the alias afterwards).
    Anything not listed evaluates to None: unsupported syntax / an unknown name can never evaluate to something.
-   Method calls on self run the callee's own extracted syntax tree (depth fuel F).  Executable definitions only. *)
+   Method calls on self run the callee's own extracted syntax tree (depth fuel F).  A namespace is a finite map: binding a name
+   that is already bound replaces its value in place, a new name is put in front (so the environment has the same shape before
+   and after a loop iteration, which is what the loop invariants of proofs/L_C14_Ctor.v use).  Executable definitions only. *)
 From Coq Require Import String ZArith List Bool Arith.
 From OV.model Require Import M_C14_Dof.
 Import ListNotations.
@@ -88,7 +90,13 @@ Section Interp.
   Definition env := list (string * val).
   Fixpoint lookup (x : string) (r : env) : option val :=
     match r with [] => None | (y, v) :: r' => if String.eqb x y then Some v else lookup x r' end.
-  Definition bind (x : string) (v : val) (r : env) : env := (x, v) :: r.
+  (* x = v : a name that is already bound is re-bound IN PLACE, a new name is put in front (a namespace is a finite map; keeping one
+     entry per name makes the environment after a loop iteration have the same shape as before it) *)
+  Fixpoint bound (x : string) (r : env) : bool :=
+    match r with [] => false | (y, _) :: r' => if String.eqb x y then true else bound x r' end.
+  Fixpoint rebind (x : string) (v : val) (r : env) : env :=
+    match r with [] => [] | (y, w) :: r' => if String.eqb x y then (y, v) :: r' else (y, w) :: rebind x v r' end.
+  Definition bind (x : string) (v : val) (r : env) : env := if bound x r then rebind x v r else (x, v) :: r.
 
   Definition shape_of (v : val) : option (list nat) :=
     match v with
@@ -411,6 +419,94 @@ Arguments VNone {A}. Arguments VInt {A}. Arguments VZs {A}. Arguments VBool {A}.
 Arguments VN {A}. Arguments VZ {A}. Arguments VConns {A}. Arguments VPos {A}. Arguments VColon {A}. Arguments VSl {A}.
 Arguments VDict {A}.
 
+(* ---------- a syntactic guard for the interpreter's VALUE semantics of arrays ----------
+   NumPy arrays are references: after `x = y` (or a view: y.T, y.reshape(..), y.ravel(), y[...]) an in-place update `x[..] = v` is
+   seen through y as well, whereas the interpreter above copies values.  The two readings agree on a function body when no array
+   that is updated in place can be observed through another name.  alias_safe is a conservative syntactic sufficient condition
+   (checked by computation on the extracted syntax trees of every run, props/P_C14.v C14_source_no_observable_aliasing):
+   - parameters are never updated in place;
+   - a top-level assignment `t = e` whose right-hand side may share storage with a plain name y (shares e) is allowed only if
+       t is a plain name x and neither x nor y is updated in place afterwards, or one of x, y is never mentioned again (dead), or
+       t is an attribute (self.a = y: the object escapes) and y is never updated in place afterwards, or
+       t is a subscript (x[..] = e copies the data);
+   - inside a `for` body no assignment to a name / attribute shares storage with a name that is updated in place anywhere.
+   Fresh arrays: every onp.* / np.* constructor, .copy(), arithmetic, calls of other functions / methods.  Indexing is always
+   treated as a possible view (conservative). *)
+Fixpoint enames (e : expr) : list string :=
+  match e with
+  | EName x => [x]
+  | EAttr a _ => enames a
+  | ETuple l => flat_map enames l
+  | ECall f args kws => enames f ++ flat_map enames args ++ flat_map (fun kv => let '(_, v) := kv in enames v) kws
+  | EIndex a idx => enames a ++ flat_map enames idx
+  | ESlice a b => enames a ++ enames b
+  | EInvert a => enames a
+  | ENeg a => enames a
+  | EMul a b => enames a ++ enames b
+  | EAdd a b => enames a ++ enames b
+  | _ => []
+  end.
+Fixpoint shares (e : expr) : list string :=
+  match e with
+  | EName x => [x]
+  | EAttr a f => if String.eqb f "T" then shares a else []
+  | ETuple l => flat_map shares l
+  | ECall (EAttr a m) _ _ => if String.eqb m "reshape" || String.eqb m "ravel" then shares a else []
+  | EIndex a _ => shares a
+  | _ => []
+  end.
+Definition mem (x : string) (l : list string) : bool := existsb (String.eqb x) l.
+Definition target_mutated (t : expr) : list string := match t with EIndex (EName x) _ => [x] | _ => [] end.
+Fixpoint mutated_in (s : stmt) : list string :=
+  match s with
+  | SAssign ts _ => flat_map target_mutated ts
+  | SFor _ _ body => flat_map mutated_in body
+  | _ => []
+  end.
+Fixpoint refs_in (s : stmt) : list string :=
+  match s with
+  | SAssign ts e => flat_map enames ts ++ enames e
+  | SAugAdd x e => x :: enames e
+  | SFor _ it body => enames it ++ flat_map refs_in body
+  | SReturn e => enames e
+  end.
+(* inside a loop body: nothing assigned to a name / attribute may share storage with a name updated in place anywhere *)
+Fixpoint loop_alias_free (mut_all : list string) (s : stmt) : bool :=
+  match s with
+  | SAssign ts e =>
+      forallb (fun t => match t with
+                        | EIndex _ _ => true
+                        | _ => forallb (fun y => negb (mem y mut_all)) (shares e)
+                        end) ts
+  | SFor _ _ body => forallb (loop_alias_free mut_all) body
+  | _ => true
+  end.
+Definition assign_alias_ok (later_mut later_refs : list string) (t : expr) (y : string) : bool :=
+  match t with
+  | EName x => (negb (mem x later_mut) && negb (mem y later_mut))
+               || (negb (mem y later_refs) && negb (mem y later_mut))
+               || (negb (mem x later_refs) && negb (mem x later_mut))
+  | EAttr _ _ => negb (mem y later_mut)
+  | EIndex _ _ => true
+  | _ => false
+  end.
+Fixpoint block_alias_ok (mut_all : list string) (l : list stmt) : bool :=
+  match l with
+  | [] => true
+  | s :: rest =>
+      (match s with
+       | SAssign ts e =>
+           let later_mut := flat_map mutated_in rest in
+           let later_refs := flat_map refs_in rest in
+           forallb (fun t => forallb (assign_alias_ok later_mut later_refs t) (shares e)) ts
+       | SFor _ _ body => forallb (loop_alias_free mut_all) body
+       | _ => true
+       end) && block_alias_ok mut_all rest
+  end.
+Definition alias_safe (fd : fundef) : bool :=
+  let mut_all := flat_map mutated_in (f_body fd) in
+  forallb (fun p => negb (mem p mut_all)) (f_params fd) && block_alias_ok mut_all (f_body fd).
+
 (* ---------- the hand model seen as a DofManager OBJECT of the interpreter (field order = order of the class annotations) ---------- *)
 Definition dof_object {A} (nNodes dim : nat) (isBc : list bool) (conns : list (list nat)) : @val A :=
   let nd := List.length (hd [] conns) * dim in
@@ -427,6 +523,11 @@ Definition dof_object {A} (nNodes dim : nat) (isBc : list bool) (conns : list (l
 (* an object reduced to the declared fields, in declared order (so that the order of the assignments in __init__ is immaterial) *)
 Definition canon_object {A} (fields : list string) (o : @val A) : list (string * option (@val A)) :=
   match o with VObj fs => map (fun f => (f, lookup f fs)) fields | _ => [] end.
+(* ... the same with integer arrays compared by their data whatever their tag (an array created by zeros(n, dtype=int) and never
+   written through a slice keeps the index tag VN: this happens to rowCoords / colCoords only for a mesh without elements) *)
+Definition znorm {A} (v : @val A) : @val A := match v with VN sh d => VZ sh (map Z.of_nat d) | _ => v end.
+Definition canon_data {A} (fields : list string) (o : @val A) : list (string * option (@val A)) :=
+  match o with VObj fs => map (fun f => (f, option_map znorm (lookup f fs))) fields | _ => [] end.
 (* integer data of an int array whatever its tag *)
 Definition zdata {A} (v : @val A) : option (list Z) :=
   match v with VZ _ d => Some d | VN _ d => Some (map Z.of_nat d) | _ => None end.
